@@ -101,10 +101,25 @@ fn spawn(check_id: &str, arm: &str, exe_env: Option<&str>) -> std::io::Result<Ha
     Ok(Handle { child, stdin, lines: rx })
 }
 
+/// length of one waiting slice, seconds of wall clock
+const SLICE_S: u64 = 5;
+
+/// user + system CPU time a process has consumed so far, in seconds (from /proc/<pid>/stat)
+fn cpu_seconds(pid: u32) -> Option<u64> {
+    let s = std::fs::read_to_string(format!("/proc/{pid}/stat")).ok()?;
+    // the command name (field 2) may contain spaces: fields are counted after the last ')'
+    let rest = &s[s.rfind(')')? + 1..];
+    let f: Vec<&str> = rest.split_whitespace().collect();
+    // rest starts at field 3 (state): utime = field 14, stime = field 15
+    let ut: u64 = f.get(11)?.parse().ok()?;
+    let st: u64 = f.get(12)?.parse().ok()?;
+    Some((ut + st) / 100)
+}
+
 pub struct IsoArm {
     pub check_id: &'static str,
     pub inner: Box<dyn Arm>,
-    /// seconds one run may take before the child is declared hung
+    /// seconds of its own CPU time the worker may spend on one run before it is declared hung
     pub timeout_s: u64,
     /// run the worker in the build whose path is in this environment variable
     pub exe_env: Option<&'static str>,
@@ -162,9 +177,20 @@ impl Arm for IsoArm {
             if h.stdin.write_all(req.as_bytes()).and_then(|_| h.stdin.flush()).is_err() {
                 death = Some("worker pipe closed before the request".into());
             }
+            // "No termination" is decided on the worker's own CPU time, not on wall-clock silence:
+            // a loaded machine (or a slower build) must never turn a slow answer into an alarm.
+            // The wall-clock backstop (30 x the budget) only catches a worker that is blocked
+            // without consuming CPU.
+            let pid = h.child.id();
+            let mut cpu0 = cpu_seconds(pid);
+            let mut silent_wall = 0u64;
             while death.is_none() {
-                match h.lines.recv_timeout(Duration::from_secs(self.timeout_s)) {
+                match h.lines.recv_timeout(Duration::from_secs(SLICE_S)) {
                     Ok(line) => {
+                        silent_wall = 0;
+                        if line.starts_with("E\t") || line.starts_with('T') {
+                            cpu0 = cpu_seconds(pid);
+                        }
                         let mut it = line.splitn(2, '\t');
                         let tag = it.next().unwrap_or("");
                         let rest = it.next().unwrap_or("");
@@ -209,7 +235,21 @@ impl Arm for IsoArm {
                         }
                     },
                     Err(std::sync::mpsc::RecvTimeoutError::Timeout) => {
-                        death = Some(format!("no answer within {} s (hang or runaway computation)", self.timeout_s));
+                        silent_wall += SLICE_S;
+                        let used = match (cpu0, cpu_seconds(pid)) {
+                            (Some(a), Some(b)) => Some(b.saturating_sub(a)),
+                            _ => None,
+                        };
+                        let over = match used {
+                            Some(u) => u >= self.timeout_s || silent_wall >= 30 * self.timeout_s,
+                            None => silent_wall >= 30 * self.timeout_s,
+                        };
+                        if over {
+                            death = Some(format!(
+                                "no answer after {} s of worker CPU time (hang or runaway computation)",
+                                used.map(|u| u.to_string()).unwrap_or_else(|| "?".into())
+                            ));
+                        }
                     },
                     Err(std::sync::mpsc::RecvTimeoutError::Disconnected) => {
                         let st = h.child.wait().ok();
